@@ -50,7 +50,15 @@ pub fn scan_or_filter_files(
                 crate::output::print_warning(&format!("file not found: {}", file.display()));
             }
         }
-        Ok((existing_files, None, true))
+        // --diff / --staged restrict the listed files as they restrict a scan: a listed file
+        // that git does not report as changed is outside the requested set
+        let files = filter_by_git_diff(
+            existing_files,
+            args.diff.as_deref(),
+            args.staged,
+            project_root,
+        )?;
+        Ok((files, None, true))
     }
 }
 
